@@ -41,6 +41,7 @@ FUNCTIONS = [
     ("txFinishCommitted", "transaction.py", "Transaction", "_finish_committed"),
     ("txAppendData", "transaction.py", "Transaction", "append_data"),
     ("txAppendFiles", "transaction.py", "Transaction", "append_files"),
+    ("tblGetAllDataFiles", "transaction.py", "Table", "_get_all_data_files"),
     ("s3LockRelease", "lock_provider.py", "S3LockProviderBase", "release"),
     ("s3LockIsHeld", "lock_provider.py", "S3LockProviderBase", "is_held"),
     ("s3LockTryAcquire", "lock_provider.py", "S3LockProvider", "_try_acquire"),
@@ -94,6 +95,9 @@ class _Walk(ast.NodeVisitor):
                   if k.arg is not None and isinstance(k.value, ast.Constant) and isinstance(k.value.value, (bool, int, type(None)))]
         if consts:
             name += "(" + ",".join(consts) + ")"
+        if root == "s3":
+            # object-store requests: WHICH parameters a request carries (IfMatch / IfNoneMatch / Range) is its meaning
+            name += "[" + ",".join(sorted(k.arg for k in node.keywords if k.arg is not None)) + ("" if all(k.arg for k in node.keywords) else ",**") + "]"
         self.events.append(name)
 
     def visit_Raise(self, node):
